@@ -158,7 +158,11 @@ Chk(e) ==
           <<"all-packages-visited", Cardinality(ini.seen) = ini.npkgs>>,
           <<"table-size-agrees", e.n = Cardinality(tbl)>>,
           <<"nearest-recursive-ancestor-injects", \A x \in ini.fresh : ~NearerRecursive(x)>>,
-          <<"second-init-repeats-first", pass1.done => /\ pass1.recs \subseteq ini.recs /\ pass1.inj \subseteq ini.inj
+          \* every expansion and every decision of the first pass is taken again, and the table is the same.  (A decision
+          \* may turn from Inject into Exclude: an explicitly configured package below a recursive one picks up the
+          \* ancestor's exclude-subpkg-regex only when the ancestor injects it at the end of pass 1; the package it
+          \* injected itself stays in the table.)
+          <<"second-init-repeats-first", pass1.done => /\ pass1.recs \subseteq ini.recs /\ pass1.inj \subseteq ini.inj \cup ini.excl
                                                        /\ pass1.excl \subseteq ini.excl /\ e.n = pass1.n>>}
     [] e.ev = "Parsed" ->
          {<<"not-after-exit", Alive>>,
